@@ -17,7 +17,7 @@ RULE = ("generated primitives (interval, circle, sphere, parallelogram in both v
         "constant and parameter dependent with k <= 5 rows; normals queried at the library's own random and grid boundary "
         "samples; non-trivial = at least 10 rows passed the step test oracle; distinct = (expression shape, k class, "
         "parameter dependence, sampler kind)")
-REQUIRED_REACH = ["CircleBoundary.normal", "SphereBoundary.normal", "ParallelogramBoundary.normal", "TriangleBoundary.normal",
+REQUIRED_REACH = ["IntervalSingleBoundaryPoint.normal", "CircleBoundary.normal", "SphereBoundary.normal", "ParallelogramBoundary.normal", "TriangleBoundary.normal",
                   "IntervalBoundary.normal", "ShapelyBoundary.normal", "UnionBoundaryDomain.normal", "CutBoundaryDomain.normal",
                   "IntersectionBoundaryDomain.normal", "TrimeshBoundary.normal"]
 MIN_NONTRIVIAL = 30
@@ -49,6 +49,17 @@ def gen_cases(seed, tier):
     depth = 2 if tier == "quick" else 3
     cases = []
     while len(cases) < n:
+        if len(cases) % 13 == 7:
+            # polygon with a hole (several boundary rings), constant
+            ctx = gen_geo.Ctx(rng, False, 0, None, 2)
+            for _ in range(50):
+                sp = gen_geo.prim2d(ctx, rng.uniform(-2, 2, 2), float(rng.uniform(0.5, 1.5)), kinds=("polygon",))
+                if sp.get("holes"):
+                    break
+            kk_ = int(rng.choice([0, 0, 2]))
+            cases.append({"spec": sp, "rows": gen_geo.param_rows(rng, kk_), "k": kk_, "seed": int(rng.integers(0, 2 ** 31)),
+                          "info": {"kind": "prim", "dim": 2, "dep": False, "relations": ["hole"], "desc": "Gh"}})
+            continue
         if len(cases) % 9 == 4:
             dom = gen_geo.flip_parallelogram(rng)
             cases.append({"spec": dom["spec"], "rows": dom["rows"], "info": dom["info"], "k": dom["k"],
@@ -110,6 +121,8 @@ def run_case(case):
         res["viol"].append(viol("exception", "boundary of %s raised %r" % (info["desc"], e), site=exc_site(e), **mech0))
         return res
     mech0["bcls"] = type(Db).__name__
+    rng = np.random.default_rng(case["seed"])
+    _single_sides_and_evaluated(case, D, node, Pp, env, k, info, res, mech0, rng)
     for kind in ("random", "grid"):
         if kind == "grid" and k > 1:
             continue
@@ -159,6 +172,22 @@ def run_case(case):
             i = int(np.where(badlen)[0][0])
             res["viol"].append(viol("normal_not_unit", "%s.normal: %d normals with |n| != 1 (e.g. %.5f at x=%s) on %s" %
                                     (type(Db).__name__, int(badlen.sum()), ln[i], X[i].tolist(), info["desc"]), **mech))
+        # the normal of a row must not depend on the rest of the batch: single rows and small sub-batches
+        diffs = 0
+        for sel in [np.array([int(j)]) for j in rng.integers(0, len(X), 12)] + [rng.choice(len(X), size=min(3, len(X)), replace=False) for _ in range(3)]:
+            ps, qs = _mk(names_dims, X[sel], {pn: v[sel] for pn, v in envr.items()})
+            try:
+                sub = Db.normal(ps, qs).detach().double().numpy()
+            except Exception as e:
+                res["viol"].append(viol("exception", "%s.normal on a sub-batch of %d rows raised %s in %s: %s" % (type(Db).__name__, len(sel),
+                                        type(e).__name__, exc_site(e), str(e)[:200]), exc=type(e).__name__, site=exc_site(e), **mech))
+                break
+            ok_rows = np.isfinite(Nn[sel]).all(1) & np.isfinite(sub).all(1)
+            diffs += int((np.abs(sub - Nn[sel])[ok_rows] > 1e-4).any(1).sum())
+            res["counters"]["sub_batch_normals"] = res["counters"].get("sub_batch_normals", 0) + len(sel)
+        if diffs:
+            res["viol"].append(viol("normal_depends_on_batch", "%s.normal on %s: %d rows get a different normal when queried alone / in a small "
+                                    "batch than inside the full batch" % (type(Db).__name__, info["desc"], diffs), **mech))
         eps = 2e-3 * L
         g, gn = _grad(node, X, envr, eps / 8)
         smooth = gn > 0.5
@@ -197,6 +226,76 @@ def run_case(case):
                                             **mech))
     res["nontrivial"] = res["judged"] >= 10
     return res
+
+
+def _single_sides_and_evaluated(case, D, node, Pp, env, k, info, res, mech0, rng):
+    """(a) single end points of intervals: normal -1 at the left, +1 at the right end, also after the boundary object was
+    (partially) evaluated with __call__; (b) boundaries evaluated at the values of a parameter row: normals of the evaluated
+    boundary object pass the step test against the original expression at those values"""
+    import torch
+    spec = case["spec"]
+    kk = max(k, 1)
+    names_dims = node.space()
+    if spec.get("prim") == "interval":
+        j = int(rng.integers(0, kk))
+        vals = {pn: torch.tensor(env[pn][j:j + 1].astype(np.float32)) for pn in env}
+        for side, want in (("left", -1.0), ("right", 1.0)):
+            for evaluated in (False, True):
+                m = dict(mech0, bcls="IntervalSingleBoundaryPoint", side=side, evaluated=evaluated)
+                try:
+                    Bs = D.boundary_left if side == "left" else D.boundary_right
+                    par = Pp
+                    if evaluated:
+                        Bs = Bs(**vals) if vals else Bs(unused_keyword=torch.tensor([[1.0]]))
+                        par = type(Pp).empty() if vals else Pp
+                    pts = Bs.sample_random_uniform(n=3, params=par)
+                    # parameters repeated per point, as the samplers pass them
+                    parr = type(Pp)(torch.repeat_interleave(par.as_tensor, 3, dim=0), par.space) if len(par) else par
+                    nr = Bs.normal(pts, parr)
+                    nr = np.asarray(nr.detach().double().numpy() if hasattr(nr, "detach") else nr, float).reshape(-1)
+                except Exception as e:
+                    res["viol"].append(viol("exception", "normal of the %s end of %s (evaluated: %s) raised %s in %s: %s" % (side, info["desc"],
+                                            evaluated, type(e).__name__, exc_site(e), str(e)[:200]), exc=type(e).__name__, site=exc_site(e), **m))
+                    continue
+                res["judged"] += len(nr)
+                res["counters"]["single_side_normals"] = res["counters"].get("single_side_normals", 0) + len(nr)
+                if len(nr) == 0 or not np.all(np.abs(nr - want) < 1e-6):
+                    res["viol"].append(viol("normal_not_outward", "interval %s: normal at the %s end point%s is %s, outward is %+d" %
+                                            (info["desc"], side, " after evaluating the boundary with __call__" if evaluated else "",
+                                             nr.tolist()[:4], int(want)), **m))
+    if env and not isinstance(node, geo.Product):
+        j = int(rng.integers(0, kk))
+        vals = {pn: torch.tensor(env[pn][j:j + 1].astype(np.float32)) for pn in env}
+        m = dict(mech0, evaluated=True)
+        try:
+            Be = D.boundary(**vals)
+            pts = Be.sample_random_uniform(n=40)
+            X = np.concatenate([pts.coordinates[n].double().numpy().reshape(len(pts), -1) for n, _ in names_dims], 1)
+            nr = Be.normal(pts).detach().double().numpy()
+        except Exception as e:
+            res["viol"].append(viol("exception", "normal of the evaluated boundary of %s raised %s in %s: %s" % (info["desc"], type(e).__name__,
+                                    exc_site(e), str(e)[:200]), exc=type(e).__name__, site=exc_site(e), **m))
+            return
+        envr = {pn: np.repeat(env[pn][j:j + 1], len(X), 0) for pn in env}
+        L = max(geo.char_length(node, envr, len(X)), float(np.abs(X).max()))
+        bnode = geo.ref({"op": "boundary", "d": spec})
+        okb, amb = bnode.member(X, envr, TOL * L, L)
+        eps = 2e-3 * L
+        leaves = np.abs(np.stack(node.leaf_phis(X, envr), 0))
+        g, gn = _grad(node, X, envr, eps / 8)
+        smooth = okb & ~amb & np.isfinite(nr).all(1) & ((leaves <= 4 * eps).sum(0) <= 1) & (gn > 0.5)
+        for t in _tangents(g):
+            for sgn in (1, -1):
+                smooth &= np.abs(node.phi(X + sgn * 4 * eps * t, envr)) <= 0.5 * eps
+        if smooth.any():
+            Xj, Nj = X[smooth], nr[smooth]
+            ej = {pn: v[smooth] for pn, v in envr.items()}
+            bad = (node.phi(Xj + eps * Nj, ej) <= 0) | (node.phi(Xj - eps * Nj, ej) >= 0)
+            res["judged"] += int(smooth.sum())
+            res["counters"]["evaluated_boundary_normals"] = res["counters"].get("evaluated_boundary_normals", 0) + int(smooth.sum())
+            if bad.any():
+                res["viol"].append(viol("normal_not_outward", "boundary of %s evaluated at %s: %d of %d normals fail the step test" %
+                                        (info["desc"], {pn: env[pn][j].tolist() for pn in env}, int(bad.sum()), int(smooth.sum())), **m))
 
 
 def _mk(names_dims, X, envr):
